@@ -29,9 +29,9 @@ OMEN_A = dict(R.DEFAULT_OMEN, keyspace={1: 3, 2: 3, 3: 2}, omen_prob=[(1, .125),
 # levels of equal probability form ONE Markov pre-terminal: the limit has to be carried from level to level inside it
 OMEN_T = dict(R.DEFAULT_OMEN, keyspace={1: 3, 2: 3, 3: 2}, omen_prob=[(1, .125), (2, .125), (3, .03125)])
 OMEN_0 = dict(OMEN_B, omen_prob=[(1, .125), (2, 0.0), (3, 0.0)])
-
-
-FLAT_SPEC = 10      # index of the ruleset with eight equally probable single-guess structures
+# an OMEN model trained on mixed-case passwords generates mixed-case strings, with or without --all_lower
+OMEN_U = {'ngram': 2, 'alphabet': ['a', 'B'], 'ip': {'a': 0, 'B': 1}, 'ep': {}, 'cp': {'aa': 0, 'aB': 1, 'Ba': 0, 'BB': 2}, 'ln': [10, 0, 1],
+          'keyspace': {1: 3, 2: 3, 3: 2}, 'omen_prob': [(1, .125), (2, .0625), (3, .03125)]}
 
 
 def specs(tier):
@@ -49,6 +49,7 @@ def specs(tier):
         (t0, [('A2A1', .6), ('A2D1', .4)], OMEN_A),   # multi-mask C2 group followed by more variables
         (tie, [('A2D1', .6), ('A1A2', .4)], OMEN_A),  # mask groups of 4 and 2 equally probable masks, not in last position
         (t0, [('M', .5), ('A1D1', .5)], OMEN_T),
+        (t0, [('M', .6), ('A1', .4)], OMEN_U),
         (t0, [('D2', .5), ('M', .5)], OMEN_0),
         # many single-guess pre-terminals of one probability: whatever the queue does to bound its memory, the order among them must not depend on -n
         (t0, [(st, 1 / 8) for st in ('D2', 'K4', 'X1', 'D2K4', 'K4D2', 'D2X1', 'X1K4', 'K4X1')], OMEN_A),
@@ -145,7 +146,7 @@ def run_fresh(shard, tier, acc):
         ref = [l for l in full.stdout if l in lang]
     # boundaries of pre-terminals in the reference stream, to classify N
     caps = [None]
-    if mode == 'true_prob_order' and i == FLAT_SPEC and not sb and not sc:
+    if mode == 'true_prob_order' and len(spec['grammar']) == 8 and not sb and not sc:      # the ruleset with eight equally probable single-guess structures
         caps = [None, 1, 2, 3, 5]       # PcfgQueue.max_queue_size scaled down: a bound on the queue may drop entries, never reorder the first N
     for N, cap in itertools.product(range(1, nmax + 1), caps):
         S.clear_session(td)
